@@ -10,7 +10,7 @@ def run(ctx):
                 "and DNSEngine. distinct_nontrivial = cases whose expected class is not 'none'")
     ctx.assumptions = ["$stealth is not combined with document-level modifiers (role of such a referrer rule is not fixed by the property)",
                        "class and admissible winners are compared, not the identity of the winner among equals"]
-    cfgs = [(3, 1), (2, 2)] if ctx.tier == "quick" else [(4, 1), (3, 2), (4, 2)]
+    cfgs = [(3, 1), (2, 2)] if ctx.tier == "quick" else [(4, 1), (3, 2)]      # (4, 2) would be 10^6 cases: an hour of replay
     verdictcheck.run(ctx, "verdict", cfgs, why_filter=lambda m: "outranked" not in m["why"])
     verdictcheck.trace(ctx, 6000 if ctx.tier == "quick" else 400000)
 
